@@ -17,7 +17,7 @@ from .. import env, coq, runner, gates, tables, opsem, circuits as gcirc, mcircu
 
 LEVEL = 'translation_validation'
 META = dict(
-    text='Translation validation with proven components. Coq theorems: the trace-equivalence validator run on the real output of every "move, never change" transformer is sound AND complete (it accepts exactly the reorderings obtained by exchanging adjacent operations that share no qubit, no measurement key and no measured/controlling key pair), the projection lemma, trace-equivalent operation lists compute the same tensor for every ring, rank and input and keep every per-key measurement order; every constant gauge emitted by the gauge-compiling transformers satisfies (post0 x post1) . G\' . (pre0 x pre1) = c . G with |c| = 1 exactly in Q(zeta_8) (float instance to 2^-30 where entries are outside the field) and every dynamical-decoupling base sequence multiplies to a scalar; the phase-tracking loop of eject_z keeps the invariant Phi(tracked phases) . emitted = original prefix and emits an equal circuit for every denotation satisfying the commutation laws. A Pauli-basis measurement enters the reference semantics through its signed observable s.P as the keyed pair [(I+sP)/2; (I-sP)/2], proven (exactly, all strings of length <= 3, both signs) to be the complementary orthogonal self-adjoint idempotent resolution of s.P. On every run each exported transformer x options (tags_to_ignore, deep, tolerances, strategies) is executed on generated circuits (unitary, measured, classically controlled, tagged, nested, parameterised; measurement-like operations that are not a MeasurementGate: Pauli-basis measurements and keyed channels; circuits over few gates in many placements) and on two fixed grids (every kind of phase / flip in front of Pauli-basis measurements and keyed channels, for every transformer that accepts measurements; every overlapping placement of gate pairs whose commutation depends on the placement, for the commutation-based sorter; with tags_to_ignore set, an operation carrying the ignored tag - diagonal or not, one or two qubits, a measurement, a negligible gate - between phases / flips / mergeable gates and the measurements of the same qubits, for every transformer that takes tags_to_ignore; measurements that are last on their qubits but whose record a later classically controlled operation consumes, for every transformer that accepts measurements) and its output is compared with its input inside Coq through the reference semantics: same unitary up to global phase, or same joint distribution of per-key measurement records with the same conditional state on the qubits that are not terminally measured; defer/dephase/drop_terminal_measurements, lightcone_filter and the symbolized merge under their documented contracts; every branch of every gauge selector is enumerated with a scripted prng through both entry points (the one-shot call and as_sweep resolved with its sweep point) on the canonical target gates and on every other representation of them that the transformer\'s own target accepts (exponent shifted by whole periods in both directions, global shift, parent class); an output that reads a measurement key it does not record first (while the input does) is not executable and is reported; the eject_z model is compared with the real transformer; ignored-tag operations untouched, sub-circuits untouched unless deep, argument unchanged.',
+    text='Translation validation with proven components. Coq theorems: the trace-equivalence validator run on the real output of every "move, never change" transformer is sound AND complete (it accepts exactly the reorderings obtained by exchanging adjacent operations that share no qubit, no measurement key and no measured/controlling key pair), the projection lemma, trace-equivalent operation lists compute the same tensor for every ring, rank and input and keep every per-key measurement order; every constant gauge emitted by the gauge-compiling transformers satisfies (post0 x post1) . G\' . (pre0 x pre1) = c . G with |c| = 1 exactly in Q(zeta_8) (float instance to 2^-30 where entries are outside the field) and every dynamical-decoupling base sequence multiplies to a scalar; the phase-tracking loop of eject_z keeps the invariant Phi(tracked phases) . emitted = original prefix and emits an equal circuit for every denotation satisfying the commutation laws. A Pauli-basis measurement enters the reference semantics through its signed observable s.P as the keyed pair [(I+sP)/2; (I-sP)/2], proven (exactly, all strings of length <= 3, both signs) to be the complementary orthogonal self-adjoint idempotent resolution of s.P. On every run each exported transformer x options (tags_to_ignore, deep, tolerances, strategies) is executed on generated circuits (unitary, measured, classically controlled, tagged, nested, parameterised; measurement-like operations that are not a MeasurementGate: Pauli-basis measurements and keyed channels; circuits over few gates in many placements) and on two fixed grids (every kind of phase / flip in front of Pauli-basis measurements and keyed channels, for every transformer that accepts measurements; every overlapping placement of gate pairs whose commutation depends on the placement, for the commutation-based sorter; with tags_to_ignore set, an operation carrying the ignored tag - diagonal or not, one or two qubits, a measurement, a negligible gate - between phases / flips / mergeable gates and the measurements of the same qubits, for every transformer that takes tags_to_ignore; measurements that are last on their qubits but whose record a later classically controlled operation consumes, for every transformer that accepts measurements) and its output is compared with its input inside Coq through the reference semantics: same unitary up to global phase, or same joint distribution of per-key measurement records with the same conditional state on the qubits that are not terminally measured; defer/dephase/drop_terminal_measurements, lightcone_filter and the symbolized merge under their documented contracts; every branch of every gauge selector is enumerated with a scripted prng through both entry points (the one-shot call and as_sweep resolved with its sweep point) on the canonical target gates and on every other representation of them that the transformer\'s own target accepts (exponent shifted by whole periods in both directions, global shift, parent class); an output that reads a measurement key it does not record first (while the input does) is not executable and is reported; the eject_z model is compared with the real transformer; IdleMomentsGauge (exported by the gauge_compiling sub-package only; its exports are frozen too): a model of the transformer in the shape of the code (windows from the active moments of each qubit, G merged after the gate that opens the window, G^-1 merged before the gate that closes it) is proven to keep the operator of the circuit up to the central scalar G^-1 . G for every window whose inner moments are free and whose ends are free or mergeable, for every denotation in a monoid in which the single-qubit gates of a qubit commute with what the other qubits do, and the variant that merges the inverse after the closing gate is refuted; on every run the transformer is executed through a scripted numpy Generator on fixed shapes (one idle window opened / closed by non-Pauli gates H, T, X**0.5, a general PhasedXZ, by Paulis, tagged gates, two-qubit gates, operations and moments carrying the ignored tag, the beginning / end of the circuit, one-moment windows, windows sharing a gate, windows on two qubits, windows next to measurements / channels) with every window taking every index of the gauge tuple for gauges = pauli, clifford, inv_clifford and a custom tuple, and on generated sparse circuits with random draws; each run is compared with its input through the reference semantics and with the model run on the same draws (windows decided sound inside Coq), and gauges / gauges_inverse are checked to be inverse pairs; ignored-tag operations untouched, sub-circuits untouched unless deep, argument unchanged.',
     note='Level translation_validation: the quantifier over programs is sampled for every rewriting pass; only the reorder-only family is decided by a theorem applied to each real output (and eject_z by a model theorem plus correspondence over a restricted alphabet). Trusted: Coq kernel (primitive floats for the float-instance theorem); float instance (tolerance 1e-6) for the numeric comparison; each operation\'s own cirq.unitary / cirq.kraus / measurement description (tied to the documented matrices by C03/C04/C09) and CircuitOperation.mapped_circuit for flattening (C12); Python adapters (operation identification by Cirq equality, resources through cirq.measurement_key_objs / cirq.control_keys, cirq.phase_by as the phased gate of the eject_z correspondence). Routing, target gatesets and analytical decompositions exported from the same package belong to C07/C15; map_clean_and_borrowable_qubits is not exercised; RandomizedMeasurements changes the measured basis by design.',
     technique='Rocq/Coq proof of a sound and complete trace-equivalence validator + exact gauge identities in Q(zeta_8) + model of the eject_z loop with its invariant + vm_compute translation validation of every transformer output against the reference semantics',
 )
@@ -80,6 +80,11 @@ CLASSIFICATION = {
     'two_qubit_matrix_to_ion_operations': 'other', 'two_qubit_matrix_to_sqrt_iswap_operations': 'other',
     'unitary_to_pauli_string': 'other',
 }
+# what the sub-package cirq.transformers.gauge_compiling exports in addition (not re-exported by cirq.transformers); frozen likewise
+GC_CLASSIFICATION = {
+    'CPhaseGaugeTransformer': 'semantic', 'IdleMomentsGauge': 'semantic',
+    'MultiMomentGaugeTransformer': 'api', 'TwoQubitGateSymbolizer': 'api',
+}
 # special contracts (what is compared instead of plain equivalence)
 CONTRACTS = {
     'defer_measurements': 'records and state on the original qubits are compared after tracing out the ancilla qubits the transformer adds',
@@ -96,6 +101,12 @@ CONTRACTS = {
 def exported(cirq):
     t = cirq.transformers
     return sorted(n for n in dir(t) if not n.startswith('_') and not isinstance(getattr(t, n), types.ModuleType))
+
+
+def exported_gauge_compiling(cirq):
+    """names exported by cirq.transformers.gauge_compiling that cirq.transformers does not re-export"""
+    t, gc = cirq.transformers, cirq.transformers.gauge_compiling
+    return sorted(n for n in dir(gc) if not n.startswith('_') and not isinstance(getattr(gc, n), types.ModuleType) and not hasattr(t, n))
 
 
 # --------------------------------------------------------------------------------------------------------------------
@@ -542,6 +553,61 @@ def gen_alphabet(cirq, rng, n=None):
     return c
 
 
+def idle_custom_gauges(cirq):
+    """a custom gauge tuple for IdleMomentsGauge: not Paulis, not all Clifford, not self-inverse"""
+    return (cirq.T, cirq.X ** 0.5, cirq.H, cirq.PhasedXZGate(x_exponent=0.25, z_exponent=0.5, axis_phase_exponent=0.125), cirq.S ** -1)
+
+
+def idle_1q(cirq, rng):
+    """single-qubit gates next to idle windows: mostly gates that do not commute with Paulis / Cliffords up to a phase"""
+    r = rng.random()
+    if r < 0.5:
+        return rng.choice([cirq.H, cirq.T, cirq.X ** 0.5, cirq.S, cirq.Y ** 0.25, cirq.X ** -0.25, cirq.Z ** 0.3, cirq.H ** 0.5])
+    if r < 0.65:
+        return rng.choice([cirq.X, cirq.Y, cirq.Z, cirq.I])
+    return rand_1q(cirq, rng)
+
+
+def gen_idle(cirq, rng, measured=False):
+    """Sparse circuits: every qubit has runs of moments in which it is idle while another qubit is busy (idle windows of length
+    1-5), opened and closed by every kind of operation: single-qubit gates (Pauli or not), two-qubit gates, the circuit ends;
+    measured=True adds a two-qubit measurement mid-circuit, operations controlled by its record and terminal measurements
+    (joint, sometimes one per qubit)."""
+    n = rng.randint(2, 3)
+    qs = cirq.LineQubit.range(n)
+    depth = rng.randint(5, 9)
+    two = [cirq.CZ, cirq.CNOT, cirq.ISWAP ** 0.5, cirq.CZ ** 0.5]
+    moments = []
+    mid = rng.randint(1, depth - 2) if measured else None
+    have_key = False
+    for d in range(depth):
+        free = list(qs)
+        rng.shuffle(free)
+        ops_ = []
+        if d == mid:
+            a, b = free.pop(), free.pop()
+            ops_.append(cirq.measure(a, b, key='a'))
+        elif rng.random() < 0.25:
+            a, b = free.pop(), free.pop()
+            ops_.append(rng.choice(two).on(a, b))
+        for q in free:
+            r = rng.random()
+            if r < 0.35:
+                ops_.append(idle_1q(cirq, rng).on(q))
+            elif r < 0.45 and have_key:
+                ops_.append(rng.choice([cirq.X, cirq.Z, cirq.H]).on(q).with_classical_controls('a'))
+        if not ops_:
+            ops_.append(idle_1q(cirq, rng).on(rng.choice(qs)))        # no empty moments: a busy qubit next to the idle ones
+        moments.append(cirq.Moment(ops_))
+        have_key = have_key or d == mid          # the record is read in later moments only
+    if measured:
+        if rng.random() < 0.7:
+            moments.append(cirq.Moment([cirq.measure(*qs, key='m')]))
+        else:
+            moments.append(cirq.Moment([cirq.measure(q, key=f'm{i}') for i, q in enumerate(qs)]))
+    return cirq.Circuit(moments)
+
+
 def placement_grid(cirq, rng):
     """Deterministic part of the 'few gates, many placements' class: for fixed gate pairs (A, B) whose commutation depends on the
     placement, every overlapping placement A(p), B(q) on three qubits is a block; one circuit per block starts with that block
@@ -765,6 +831,8 @@ def gen_circuit(cirq, rng, kinds, tags=True, nest=True, mods=None):
         c = gen_ejectable(cirq, rng, measured=True, general=True)
     elif kind == 'alphabet':
         c = gen_alphabet(cirq, rng)
+    elif kind in ('idle', 'idle:measured'):
+        c = gen_idle(cirq, rng, measured=kind.endswith('measured'))
     elif kind.startswith('gauge:'):
         parts = kind.split(':')
         tw = gauge_targets(cirq, rng, mods, parts[1])
@@ -935,6 +1003,13 @@ def make_configs(cirq, mods):
                          ('SYCGaugeTransformer', mods['cirq_google'].transformers.SYCGaugeTransformer, 'gauge:syc')):
         call = (lambda tr: lambda c, context: tr(c, context=context, rng_or_seed=GAUGE_SEED[0]))(tr) if nm.endswith('MM') else gauge_call(tr)
         C.append(Cfg(nm, '', call, 'semantic', kinds=(kind, kind, kind + ':measured'), expect_raise=gdeep, n=0.6, nest=False))
+    # IdleMomentsGauge: G at the start of every idle window of a qubit, G^-1 at its end, both merged into neighbouring 1q gates
+    for variant, kw in (('pauli,min=1', dict(min_length=1, gauges='pauli')), ('clifford,min=2', dict(min_length=2, gauges='clifford')),
+                        ('inv_clifford,min=1,both ends', dict(min_length=1, gauges='inv_clifford', gauge_beginning=True, gauge_ending=True)),
+                        ('custom,min=2,both ends', dict(min_length=2, gauges=idle_custom_gauges(cirq), gauge_beginning=True, gauge_ending=True))):
+        tr = gc.IdleMomentsGauge(**kw)
+        C.append(Cfg('IdleMomentsGauge', variant, (lambda tr: lambda c, context: tr(c, context=context, rng_or_seed=GAUGE_SEED[0]))(tr), 'semantic',
+                     kinds=('idle', 'idle', 'idle:measured'), expect_raise=gdeep, n=0.5, nest=False))
     # ---- special contracts ----
     # an ignored (hence not deferred) measurement whose record a classical control needs: documented ValueError
     defer_ignored = lambda circuit, deep, ignore, e: (ignore and isinstance(e, ValueError) and ('Deferred measurement for key' in str(e) or 'Invalid index for' in str(e))
@@ -984,6 +1059,8 @@ def run_case(ctx, cirq, cfg, circuit, kind, deep, ignore, checks, case_no, prng_
             sig = 'gate-defect:has-stabilizer-effect-but-clifford-act-on-fails'
         elif isinstance(e, TypeError) and 'unhashable type' in str(e) and unhashable_operation(cirq, circuit):
             sig = 'gate-defect:unhashable-operation'
+        elif cfg.name == 'IdleMomentsGauge' and idle_merge_without_unitary(cirq, circuit, ignore, e):
+            sig = 'IdleMomentsGauge:raises:TypeError:window-next-to-1q-gate-without-unitary'
         ctx.violation(sig, f'{cfg.id} raised {type(e).__name__}: {str(e)[:300]} (deep={deep}, ignore={ignore}) on\n{circuit}',
                       dict(kind='raises', error=traceback.format_exc()[-1500:], **rep))
         return
@@ -1101,13 +1178,14 @@ def error_class(msg):
 def evaluate(ctx, checks):
     """Evaluate all Coq booleans in parallel shards; returns set of indices (into checks) that are false."""
     failed = set()
-    for what, pre, SH in (('trace', PRE_TRACE, 120), ('ejectz', PRE_EJECTZ, 120), ('semantics', PRE_NUM, 14)):
-        idxs = [i for i, c in enumerate(checks) if c['what'] == what]
+    for what, pre, SH in (('trace', PRE_TRACE, 120), ('ejectz', PRE_EJECTZ, 120), ('idle', PRE_IDLE[0], 60), ('semantics', PRE_NUM, 14)):
+        idxs = [i for i, c in enumerate(checks) if c['what'] == what and not c.get('light')]
+        light = [i for i, c in enumerate(checks) if c['what'] == what and c.get('light')]     # circuits of a few small operations: larger shards
+        parts = [idxs[s0:s0 + SH] for s0 in range(0, len(idxs), SH)] + [light[s0:s0 + 5 * SH] for s0 in range(0, len(light), 5 * SH)]
         shards = []
-        for s0 in range(0, len(idxs), SH):
-            part = idxs[s0:s0 + SH]
+        for k, part in enumerate(parts):
             text = pre + 'Definition checks : list bool := [\n' + ';\n'.join(checks[i]['expr'] for i in part) + '].\nEval vm_compute in failing (fun b => b) checks.\n'
-            shards.append((f'c06_{what}_{ctx.seed}_{s0 // SH}', text, part))
+            shards.append((f'c06_{what}_{ctx.seed}_{k}', text, part))
         outs = coq.coq_eval_many([(n, t) for n, t, _ in shards], workers=14)
         for (n, t, part), out in zip(shards, outs):
             for k in coq.parse_nat_list(coq.parse_evals(out)[0]):
@@ -1133,6 +1211,9 @@ def report(ctx, checks, failed):
         elif 'ejectz' in d or (d.get('trace') and d['trace']['stream'].startswith('eject_z[model]')):
             c = d.get('ejectz') or d['trace']
             ctx.mark_broken(f'correspondence:{c["stream"]}', f'the Gallina model of eject_z\'s loop and the transformer disagree ({c["stream"]}); {c["desc"]}\noutput:\n{c["rep"].get("output_diagram", "")[:600]}')
+        elif 'idle' in d:
+            c = d['idle']
+            ctx.mark_broken(f'correspondence:{c["stream"]}', f'the Gallina model of IdleMomentsGauge and the transformer disagree ({c["stream"]}); {c["desc"]}\noutput:\n{c["rep"].get("output_diagram", "")[:600]}')
         elif 'trace' in d:
             c = d['trace']
             what = f'{c["cfg"].id}: output is not trace equivalent to the input (dependent operations exchanged; the semantics of this instance agree numerically); {c["desc"]}\noutput:\n{c["rep"]["output_diagram"][:600]}'
@@ -1220,6 +1301,14 @@ def unhashable_operation(cirq, circuit):
             except TypeError:
                 return True
     return False
+
+
+def idle_merge_without_unitary(cirq, circuit, ignore, e):
+    """IdleMomentsGauge failed in cirq.unitary and the circuit has a single-qubit gate operation (not carrying the ignored tag) that
+    has no unitary (a measurement, a channel, a reset, a parameterized gate): what it calls mergeable and multiplies into the gauge"""
+    if not (isinstance(e, TypeError) and 'cirq.unitary failed' in str(e)):
+        return False
+    return any(len(op.qubits) == 1 and op.gate is not None and not (ignore and IGN in op.tags) and not cirq.has_unitary(op) for op in circuit.all_operations())
 
 
 def stabilizer_effect_without_tableau_action(cirq, circuit):
@@ -1420,7 +1509,7 @@ def grid_stream(ctx, cirq, configs, checks, case_no):
                 case_no += 1
                 run_case(ctx, cirq, cfg, circuit.copy(), 'grid:keyflow:' + name, False, False, checks, case_no)
         if cfg.ignore and cfg.call is not None:
-            takes_unitary = bool(kinds & {'unitary', 'layers', 'ejectable', 'alphabet'}) or any(k.startswith('gauge:') for k in kinds)
+            takes_unitary = bool(kinds & {'unitary', 'layers', 'ejectable', 'alphabet', 'idle'}) or any(k.startswith('gauge:') for k in kinds)
             takes_measured = any(('measured' in k or 'terminal' in k) for k in kinds)
             for name, circuit, measured in ign_grid:
                 if takes_measured if measured else takes_unitary:
@@ -1629,6 +1718,248 @@ def gauge_sweep_stream(ctx, cirq, mods, checks, case_no):
     return case_no
 
 
+# ---- IdleMomentsGauge: every branch of the gauge draw at every window, model correspondence ----
+def make_scripted_generator():
+    class ScriptedGenerator(np.random.Generator):
+        """A numpy Generator (the transformers that take `rng_or_seed` accept nothing else as a source of randomness) whose draws
+        follow a script: draw number p of `choice` returns index script[p], or base(p, arity) beyond the script; every draw is
+        recorded as (index, arity).  Any other way of drawing is refused, so an enumeration is never silently incomplete."""
+        def __init__(self, script, base=None):
+            super().__init__(np.random.PCG64(0))
+            self.script_, self.base_, self.draws = list(script), base or (lambda p, arity: 0), []
+
+        def choice(self, a, size=None, replace=True, p=None, axis=0, shuffle=True):
+            if size is not None or p is not None:
+                raise RuntimeError('ScriptedGenerator: choice with size / p is not scripted')
+            arity = int(a) if isinstance(a, (int, np.integer)) else len(a)
+            pos = len(self.draws)
+            k = self.script_[pos] if pos < len(self.script_) else self.base_(pos, arity)
+            if not 0 <= k < arity:
+                raise RuntimeError('ScriptedGenerator: script index out of range')
+            self.draws.append((k, arity))
+            return k if isinstance(a, (int, np.integer)) else a[k]
+
+    def refuse(name):
+        def f(self, *a, **kw):
+            raise RuntimeError(f'ScriptedGenerator: unexpected draw {name}')
+        return f
+    for name in dir(np.random.Generator):
+        if not name.startswith('_') and name not in ('choice', 'bit_generator'):
+            setattr(ScriptedGenerator, name, refuse(name))
+    return ScriptedGenerator
+
+
+def idle_base(pos, arity):
+    """the branch the other windows stay on while one window takes every branch: never index 0 (the identity of 'pauli' / 'clifford')"""
+    return (1 + 2 * pos) % arity if arity > 1 else 0
+
+
+def enumerate_draw_sites(fn):
+    """Runs fn(generator) with every draw site taking every branch in turn while the other sites stay on idle_base:
+    [(full script, result)], distinct scripts; one site => every branch of the selector."""
+    SG = make_scripted_generator()
+    g = SG([], idle_base)
+    first = fn(g)
+    sites = list(g.draws)
+    runs, seen = [(tuple(k for k, _ in sites), first)], {tuple(k for k, _ in sites)}
+    for pos, (_, arity) in enumerate(sites):
+        for k in range(arity):
+            script = [idle_base(j, a) for j, (_, a) in enumerate(sites[:pos])] + [k]
+            g = SG(script, idle_base)
+            out = fn(g)
+            full = tuple(i for i, _ in g.draws)
+            if full not in seen:
+                seen.add(full)
+                runs.append((full, out))
+    return runs
+
+
+IDLE_GAUGE_SETS = ('pauli', 'clifford', 'inv_clifford', 'custom')
+
+
+def idle_transformer(cirq, gauges, opts):
+    gc = cirq.transformers.gauge_compiling
+    return gc.IdleMomentsGauge(gauges=idle_custom_gauges(cirq) if gauges == 'custom' else gauges, **opts)
+
+
+def idle_shapes(cirq):
+    """Deterministic part of the 'gauge inserted around an idle window' class: one window on q0 (q1 is busy in every moment) whose
+    first / last moment holds every kind of neighbour - a non-Pauli single-qubit gate (H, T, X**0.5, a general PhasedXZ), a Pauli,
+    a tagged gate, a two-qubit gate, an operation / a moment carrying the ignored tag, the beginning / the end of the circuit
+    (gauge_beginning / gauge_ending), windows of one moment; then several windows sharing a gate, windows on two qubits, and
+    windows next to a single-qubit operation that has no unitary (measurement, channel).
+    Returns (name, circuit, options, tags_to_ignore set?)."""
+    q0, q1, q2 = cirq.LineQubit.range(3)
+    M, H, T, X, Y, Z, S, CZ = cirq.Moment, cirq.H, cirq.T, cirq.X, cirq.Y, cirq.Z, cirq.S, cirq.CZ
+    B = lambda: cirq.X(q1) ** 0.5
+    ig = lambda op: op.with_tags(IGN)
+    phxz = cirq.PhasedXZGate(x_exponent=0.3, z_exponent=0.7, axis_phase_exponent=-0.2)
+    C = cirq.Circuit
+    return [
+        ('H, idle x3, H', C(M(H(q0), B()), M(B()), M(B()), M(B()), M(H(q0), B())), dict(min_length=2), False),
+        ('X, idle x3, T[keep]', C(M(X(q0), B()), M(B()), M(B()), M(B()), M(T(q0).with_tags(KEEP))), dict(min_length=3), False),
+        ('CZ, idle x2, X**0.5, CZ', C(M(H(q0), H(q1)), M(CZ(q0, q1)), M(B()), M(B()), M(X(q0) ** 0.5, B()), M(CZ(q0, q1))), dict(min_length=2), False),
+        ('Y**0.25, idle x1, PhXZ', C(M(Y(q0) ** 0.25, B()), M(B()), M(phxz.on(q0))), dict(min_length=1), False),
+        ('X, idle x3, Y', C(M(X(q0)), M(B()), M(B()), M(B()), M(Y(q0), B())), dict(min_length=2), False),
+        ('H, idle x3, CZ, H', C(M(H(q0), B()), M(B()), M(B()), M(B()), M(CZ(q0, q1)), M(H(q0))), dict(min_length=2), False),
+        ('S, idle x2, H[ign]', C(M(S(q0), B()), M(B()), M(B()), M(ig(H(q0)), B()), M(T(q0))), dict(min_length=2), True),
+        ('T[ign], idle x2, X**0.5', C(M(ig(T(q0)), B()), M(B()), M(B()), M(X(q0) ** 0.5, B())), dict(min_length=2), True),
+        ('H, idle x2, ignored moment, T', C(M(H(q0), B()), M(B()), M(B()), cirq.Moment([T(q0), B()], tags=(IGN,)), M(H(q0))), dict(min_length=2), True),
+        ('idle x2, H (gauge_beginning)', C(M(B()), M(B()), M(H(q0), B()), M(CZ(q0, q1))), dict(min_length=2, gauge_beginning=True), False),
+        ('idle x2, CZ (gauge_beginning)', C(M(B()), M(B()), M(CZ(q0, q1)), M(H(q0))), dict(min_length=2, gauge_beginning=True), False),
+        ('CZ, T, idle x2 (gauge_ending)', C(M(CZ(q0, q1)), M(T(q0), B()), M(B()), M(B())), dict(min_length=2, gauge_ending=True), False),
+        ('CZ, idle x1, CZ', C(M(H(q0), H(q1)), M(CZ(q0, q1)), M(B()), M(CZ(q0, q1)), M(H(q0))), dict(min_length=1), False),
+        ('idle x2, H, idle x3, T, idle x2 (both ends)', C(M(B()), M(B()), M(H(q0), B()), M(B()), M(B()), M(B()), M(T(q0)), M(B()), M(B())),
+         dict(min_length=2, gauge_beginning=True, gauge_ending=True), False),
+        ('windows on two qubits', C(M(X(q0) ** 0.5, H(q2)), M(S(q1), T(q2)), M(H(q2)), M(H(q0), T(q2)), M(T(q1), H(q2)), M(CZ(q0, q1), X(q2) ** 0.5)), dict(min_length=1), False),
+        ('H, idle x3, measure', C(M(H(q0), H(q1)), M(B()), M(B()), M(B()), M(cirq.measure(q0, key='a'), cirq.measure(q1, key='b'))), dict(min_length=2), False),
+        ('T, idle x2, depolarize', C(M(T(q0), H(q1)), M(B()), M(B()), M(cirq.depolarize(0.1).on(q0), B()), M(cirq.measure(q0, q1, key='m'))), dict(min_length=2), False),
+        ('H, idle x2, joint measurement', C(M(H(q0), H(q1)), M(B()), M(B()), M(cirq.measure(q0, q1, key='m'))), dict(min_length=2), False),
+    ]
+
+
+def idle_wires(cirq, circuit, qubits, ignore, fixed_moments=None):
+    """The circuit as each qubit sees it (Xform/IdleGauge.v `moment`): per moment 'I' (free), ('M', unitary) (a single-qubit gate
+    operation without the ignored tag), 'F' (anything else; every moment that carries the ignored tag).  None if a mergeable
+    operation has no unitary (the model has no matrix for it)."""
+    tags = {IGN} if ignore else set()
+    fixed = [bool(tags & set(m.tags)) for m in circuit] if fixed_moments is None else fixed_moments
+    wires = []
+    for q in qubits:
+        w = []
+        for m, fx in zip(circuit, fixed):
+            op = m.operation_at(q)
+            if fx:
+                w.append('F')
+            elif op is None:
+                w.append('I')
+            elif len(op.qubits) == 1 and op.gate is not None and not (tags & set(op.tags)):
+                u = cirq.unitary(op, None)
+                if u is None:
+                    return None, fixed
+                w.append(('M', u))
+            else:
+                w.append('F')
+        wires.append(w)
+    return wires, fixed
+
+
+def wires_term(wires):
+    return '[' + ';\n  '.join('[' + '; '.join('mi' if x == 'I' else 'mf' if x == 'F' else f'mm {gates.fmat(x[1])}' for x in w) + ']' for w in wires) + ']'
+
+
+def idle_pre(cirq):
+    """prelude of the idle-gauge case files: the transformer's own tables gauges / gauges_inverse, as matrices, for each gauge set"""
+    out = [gates.COQ_HEADER + 'From VF Require Import Xform.IdleGauge Xform.IdleGaugeFloat.\n']
+    for name in IDLE_GAUGE_SETS:
+        tr = idle_transformer(cirq, name, dict(min_length=1))
+        for nm, tup in (('gs', tr.gauges), ('gis', tr.gauges_inverse)):
+            out.append(f'Definition {nm}_{name} : list FM := [' + ';\n  '.join(gates.fmat(cirq.unitary(g)) for g in tup) + '].\n')
+    return ''.join(out)
+
+
+def idle_case(ctx, cirq, checks, case_no, name, circuit, opts, ignore, gset, script, out, stream_kind):
+    """semantic comparison of one run with the input, and comparison with the model's run on the same draws"""
+    import random
+    cfg = Cfg('IdleMomentsGauge', 'every gauge', None, 'semantic')
+    rng = random.Random(f'{ctx.seed}:idle:{case_no}')
+    context_s = f'tags_to_ignore={(IGN,) if ignore else ()}'
+    opt_s = ', '.join(f'{k}={v}' for k, v in sorted(opts.items()))
+    desc = (f'IdleMomentsGauge({opt_s}, gauges={gset!r}) {context_s} with gauge draws {list(script)} on {name}: '
+            f'[{" | ".join(", ".join(str(op) for op in m) for m in circuit)}]')
+    rep = dict(config=cfg.id, deep=False, ignore=ignore, circuit=repr(circuit), diagram=str(circuit), circuit_kind='idle-gauge', idle_opts=opts, idle_gauges=gset,
+               gauge_script=list(script), output=repr(out), output_diagram=str(out), root_cause='idle-window')
+    if ignore:
+        miss = ignored_missing(cirq, circuit, out, False)
+        if miss:
+            ctx.violation('IdleMomentsGauge:ignored-op-touched', f'{cfg.id}: operation(s) carrying the ignored tag were changed or removed: {miss[:3]!r}; {desc}\noutput:\n{out}',
+                          dict(kind='ignored', missing=repr(miss), **rep))
+    try:
+        expr, kind = semantic_check(cirq, rng, flatten_ops(cirq, circuit), flatten_ops(cirq, out), 'same')
+        checks.append(dict(case=case_no, what='semantics', stream=f'{cfg.id}:{kind}', expr=expr, cfg=cfg, rep=rep, desc=desc, light=len(circuit.all_qubits()) <= 3))
+    except opsem.Unsupported as e:
+        ctx.count(cfg.id + ':unsupported', str(e), False)
+    qubits = list(circuit.all_qubits())          # the order in which the transformer visits the qubits (and consumes the draws)
+    wires, fixed = idle_wires(cirq, circuit, qubits, ignore)
+    real, _ = idle_wires(cirq, out, qubits, ignore, fixed_moments=fixed) if len(out) == len(circuit) else (None, None)
+    if wires is not None and real is not None:
+        b = lambda x: 'true' if x else 'false'
+        checks.append(dict(case=case_no, what='idle', stream='IdleMomentsGauge[model]:output-vs-model', cfg=cfg, rep=rep, desc=desc,
+                           expr=(f'idle_check {TOL} {int(opts["min_length"])}%nat {b(opts.get("gauge_beginning"))} {b(opts.get("gauge_ending"))} gs_{gset} gis_{gset}\n '
+                                 f'{wires_term(wires)}\n {gates.nlist(script)}\n {wires_term(real)}')))
+    elif wires is not None:
+        ctx.mark_broken('correspondence:IdleMomentsGauge[model]', f'the output has {len(out)} moments, the input {len(circuit)}; {desc}')
+    ctx.count(f'{cfg.id}:{stream_kind}', [name, repr(circuit), opt_s, gset, list(script), ignore], bool(script),
+              sample=dict(transformer=cfg.id, gauges=gset, options=opt_s, gauge_script=list(script), circuit=str(circuit)[:300], output=str(out)[:300]))
+
+
+def idle_gauge_stream(ctx, cirq, checks, case_no, n_random):
+    """IdleMomentsGauge through a scripted generator: on the fixed shapes every window takes every index of the gauge tuple
+    (for 'pauli', 'clifford', 'inv_clifford' and a custom tuple) while the other windows stay on a fixed non-identity index; on
+    generated sparse circuits (gen_idle) the draws are random.  Each run is compared with the input through the reference
+    semantics and with the model of the transformer (Xform/IdleGauge.v) run on the same draws; the transformer's gauge tables are
+    checked to be inverse pairs."""
+    import random, traceback
+    PRE_IDLE[0] = idle_pre(cirq)
+    for gset in IDLE_GAUGE_SETS:
+        case_no += 1
+        cfg = Cfg('IdleMomentsGauge', 'gauge table', None, 'semantic')
+        checks.append(dict(case=case_no, what='idle', stream='IdleMomentsGauge[model]:inverse-pairs', cfg=cfg, expr=f'pairs_ok 0x1p-30 gs_{gset} gis_{gset}',
+                           rep=dict(config=cfg.id, idle_gauges=gset, root_cause=''), desc=f'gauges_inverse[k] . gauges[k] is a phase for every k, gauges={gset!r}'))
+        ctx.count('IdleMomentsGauge[gauge table]', gset, True)
+    def run_one(name, circuit, opts, ignore, gset, runs_of, stream_kind):
+        nonlocal case_no
+        tr = idle_transformer(cirq, gset, opts)
+        context = cirq.TransformerContext(tags_to_ignore=(IGN,) if ignore else ())
+        before = snapshot(cirq, circuit)
+        try:
+            runs = runs_of(lambda g: tr(circuit, context=context, rng_or_seed=g))
+        except Exception as e:
+            sig = f'IdleMomentsGauge:raises:{type(e).__name__}:{error_class(str(e))}'
+            if idle_merge_without_unitary(cirq, circuit, ignore, e):
+                sig = 'IdleMomentsGauge:raises:TypeError:window-next-to-1q-gate-without-unitary'
+            case_no += 1
+            ctx.violation(sig, f'IdleMomentsGauge({opts}, gauges={gset!r}) raised {type(e).__name__}: {str(e)[:200]} (tags_to_ignore={(IGN,) if ignore else ()}) on {name}:\n{circuit}',
+                          dict(kind='raises', error=traceback.format_exc()[-1500:], config='IdleMomentsGauge[every gauge]', circuit=repr(circuit), circuit_kind='idle-gauge',
+                               idle_opts=opts, idle_gauges=gset, ignore=ignore, gauge_script=[]))
+            ctx.count('IdleMomentsGauge[every gauge]:raises', [name, gset], False)
+            return
+        if snapshot(cirq, circuit) != before:
+            ctx.violation('IdleMomentsGauge:input-modified', f'IdleMomentsGauge modified its argument on {name}:\n{circuit}', dict(kind='input-modified', circuit=repr(circuit)))
+        for script, out in runs:
+            case_no += 1
+            idle_case(ctx, cirq, checks, case_no, name, circuit, opts, ignore, gset, script, out, stream_kind)
+    shapes = idle_shapes(cirq)
+    for si, (name, circuit, opts, ignore) in enumerate(shapes):
+        for gset in IDLE_GAUGE_SETS:
+            if ctx.tier == 'quick' and gset == 'inv_clifford' and si % 3 != 0:
+                continue            # the inverse table is the clifford table with the two roles exchanged: a third of the shapes in the quick tier
+            run_one('shape:' + name, circuit, opts, ignore, gset, enumerate_draw_sites, 'shapes')
+    SG = make_scripted_generator()
+    for k in range(n_random):
+        rng = random.Random(f'{ctx.seed}:idle-random:{k}')
+        circuit = gen_idle(cirq, rng, measured=False)
+        ignore = rng.random() < 0.4
+        if ignore:
+            circuit = decorate(cirq, rng, circuit, tags=True, nest=False)
+        gset = IDLE_GAUGE_SETS[k % len(IDLE_GAUGE_SETS)]
+        opts = dict(min_length=rng.randint(1, 3))
+        if rng.random() < 0.5:
+            opts['gauge_beginning'] = True
+        if rng.random() < 0.5:
+            opts['gauge_ending'] = True
+        draw = random.Random(rng.random())
+        def one_random_run(fn, draw=draw):
+            g = SG([], lambda pos, arity: draw.randrange(arity))
+            out = fn(g)
+            return [(tuple(i for i, _ in g.draws), out)]
+        run_one(f'random:{k}', circuit, opts, ignore, gset, one_random_run, 'random')
+    return case_no
+
+
+PRE_IDLE = ['']
+
+
 def run(ctx):
     mods = env.import_cirq(('cirq_google',))
     cirq = mods['cirq']
@@ -1638,7 +1969,8 @@ def run(ctx):
                 'measurement-like operations of every kind (Pauli-basis measurements X/Y/Z, +/-, 1-2 qubits, keyed Kraus / mixed-unitary channels) mid-circuit and terminal; '
                 'circuits over 2-4 distinct gates in many placements; fixed grids (measurement-like neighbourhoods x every measuring configuration, placement grid x insertion sort, '
                 'ignored-tag barrier grid x every configuration taking tags_to_ignore, consumed-record grid x every measuring configuration); gauge targets in every accepted representation '
-                '(exponent modulo period, global shift) x every selector branch x {call, as_sweep}; '
+                '(exponent modulo period, global shift) x every selector branch x {call, as_sweep}; IdleMomentsGauge: idle-window shapes x {pauli, clifford, inv_clifford, custom gauges} x every gauge index at every window, '
+                'sparse generated circuits (idle runs of 1-5 moments) x {min_length, gauge_beginning, gauge_ending, tags_to_ignore}; '
                 'non-trivial = >=2 operations and the output differs from the input; distinct by (transformer, options, circuit)')
     ctx.assumptions += ['float tolerance 1e-6 for the numeric comparison', 'operations enter the model through their own cirq.unitary/kraus/measurement description',
                         'CircuitOperation.mapped_circuit is used to flatten nested circuits on both sides']
@@ -1648,7 +1980,12 @@ def run(ctx):
     gone = [n for n in CLASSIFICATION if n not in names]
     if unknown or gone:
         ctx.mark_broken('classification:exports', f'unclassified exports: {unknown}; classified but no longer exported: {gone}')
-    ctx.cov['classification'] = {k: sorted(n for n, v in CLASSIFICATION.items() if v == k) for k in ('reorder', 'semantic', 'special', 'api', 'other')}
+    gc_names = exported_gauge_compiling(cirq)
+    gc_unknown, gc_gone = [n for n in gc_names if n not in GC_CLASSIFICATION], [n for n in GC_CLASSIFICATION if n not in gc_names]
+    if gc_unknown or gc_gone:
+        ctx.mark_broken('classification:gauge_compiling-exports', f'unclassified exports of cirq.transformers.gauge_compiling: {gc_unknown}; classified but no longer exported: {gc_gone}')
+    ctx.cov['classification'] = {k: sorted([n for n, v in CLASSIFICATION.items() if v == k] + [f'gauge_compiling.{n}' for n, v in GC_CLASSIFICATION.items() if v == k])
+                                 for k in ('reorder', 'semantic', 'special', 'api', 'other')}
     err = tables.regenerate(['GaugeTables'])
     if err['GaugeTables']:
         ctx.mark_broken('table:GaugeTables', err['GaugeTables'])
@@ -1657,6 +1994,7 @@ def run(ctx):
     configs = make_configs(cirq, mods)
     checks = []
     case_no = grid_stream(ctx, cirq, configs, checks, 0)       # first: a failure is reported on the smallest input that shows it
+    case_no = idle_gauge_stream(ctx, cirq, checks, case_no, 12 * mult)
     for cfg in configs:
         n = max(3, int(round(16 * cfg.n * mult)))
         for _ in range(n):
@@ -1673,7 +2011,7 @@ def run(ctx):
     failed = evaluate(ctx, checks)
     report(ctx, checks, failed)
     ctx.cov['programs'] = case_no
-    ctx.cov['coq_checks'] = {w: sum(1 for c in checks if c['what'] == w) for w in ('trace', 'semantics', 'ejectz')}
+    ctx.cov['coq_checks'] = {w: sum(1 for c in checks if c['what'] == w) for w in ('trace', 'semantics', 'ejectz', 'idle')}
     ctx.cov['transformers_run'] = sorted({c.name for c in configs})
 
 
@@ -1698,6 +2036,13 @@ def replay(ctx, data):
         out = as_sweep_resolved(cirq, tr, circuit, seed)[1] if data['circuit_kind'].endswith('as_sweep') else tr(circuit, prng=seed)
         expr, kind = semantic_check(cirq, random.Random(0), flatten_ops(cirq, circuit), flatten_ops(cirq, out), 'same')
         checks.append(dict(case=0, what='semantics', stream=f'{cid}:{kind}', expr=expr, cfg=Cfg(cid.split('[')[0], 'every gauge', None, 'semantic'), rep=dict(data, output_diagram=str(out)), desc=cid))
+    elif data.get('circuit_kind') == 'idle-gauge':
+        PRE_IDLE[0] = idle_pre(cirq)
+        opts, gset, ignore, script = data['idle_opts'], data['idle_gauges'], bool(data.get('ignore')), data.get('gauge_script', [])
+        tr = idle_transformer(cirq, gset, opts)
+        g = make_scripted_generator()(script, idle_base)
+        out = tr(circuit, context=cirq.TransformerContext(tags_to_ignore=(IGN,) if ignore else ()), rng_or_seed=g)
+        idle_case(ctx, cirq, checks, 0, 'replay', circuit, opts, ignore, gset, tuple(k for k, _ in g.draws), out, 'replay')
     elif cid.startswith('merge_single_qubit_gates_to_phxz_symbolized'):
         sweep = eval(data['sweep'], ns)
         out, new_sweep = cirq.transformers.merge_single_qubit_gates_to_phxz_symbolized(circuit, sweep=sweep)
